@@ -39,6 +39,12 @@ var propStandins = map[string][]Standin{
 		Bound:   "stability of a view over its lifetime (the copy-on-write discipline of every writer in the manager; only the enumeration kernel of a view is under contract): 80 (quick) / 600 (thorough) seeded histories of 12 / 16 manager calls out of AddTag (mark, tag, service with 6 definitions), mark add / mark delete, definition updates, imports of 4 more streams (up to 16), small imports of one new conversation in a capture of its own (up to 12; enough of them trigger merges that replace files a held view references), more data for an old small conversation alone in its capture, opening a view (at most 3 alive, a third of the histories start on an empty service), releasing a view; after every call a fresh view must still show every stream an earlier fresh view showed, with the same client endpoint (nothing reported processed disappears or changes identity), and every live view is asked again - all streams with byte counts, HasTag for every tag it knew when it was opened, and searches for and against each of these tags - and must answer exactly as it did when it was opened. Background jobs (tagging, merging) run as they come; their interleaving is not controlled",
 		Timeout: 10 * time.Minute,
 	}},
+	"C05": {{
+		Name: "wire", Pkg: "internal/index/manager", TestFile: "wire_standin_test.go", TestName: "TestC05Standin", OutEnv: "C05_OUT",
+		EnvQuick: []string{"C05_ROUNDS=40"}, EnvThorough: []string{"C05_ROUNDS=800"},
+		Bound:   "the import pipeline from capture files to visible streams with known ground truth (capture parsing, packet ordering, gopacket's TCP reassembly and the UDP flow tracking as the service configures them, direction assignment, stream writing; only what the reassembly callbacks record is under contract): 40 (quick) / 800 (thorough) seeded rounds of 1-5 conversations - TCP connections with a complete three-way handshake, 1-4 application messages alternating between the endpoints (client or server first), each cut into 1 or more segments, with a third of the messages having two neighbouring segments swapped and a third one segment retransmitted, acknowledgements, sequence numbers that wrap in some connections, a FIN exchange or not; UDP flows with 1-4 datagrams in alternating directions; 7 payload texts; the packets of all conversations interleaved by time, cut chronologically into 1-3 capture files and imported in one call or one by one - and the service must show exactly one stream per conversation with the right protocol, client and server endpoint and, per direction change, exactly the application bytes that were sent. Not generated: IPv6, IP fragments, connections without handshake, overlapping retransmissions with different content, reordering across more than one segment, lost segments, time-outs, packets of one connection spread over captures imported out of order (see C08)",
+		Timeout: 10 * time.Minute,
+	}},
 	"C08": {{
 		Name: "batching", Pkg: "internal/index/manager", TestFile: "batching_standin_test.go", TestName: "TestC08Standin", OutEnv: "C08_OUT",
 		EnvQuick: []string{"C08_ROUNDS=10"}, EnvThorough: []string{"C08_ROUNDS=120"},
